@@ -21,9 +21,11 @@ Where the full statement is false of the code as it is, it is kept as a `def …
 Prop`, with the strongest `_partial` theorem (explicit side conditions) and a
 `_counterexample` from a concrete witness.  Helper lemmas live in
 CtyModel/Lemmas/{CoversBasic,CoversWeaken,OpsLogic,OpsCompare,OpsArith,OpsColl,
-OpsEquals,OpsKnown}.lean.
+OpsEquals,OpsIncludes,OpsAddSub,OpsKnown}.lean.
 -/
 import CtyModel.Lemmas.OpsEquals
+import CtyModel.Lemmas.OpsIncludes
+import CtyModel.Lemmas.OpsAddSub
 namespace CtyModel
 namespace C01
 open Value
@@ -313,6 +315,109 @@ theorem sound_hasElement_counterexample :
     CoversX ⟨.list .number, .seq [.unk .unref]⟩ ⟨.list .number, .seq [.n (Num.ofInt 1)]⟩ = true :=
   ⟨by rfl, by rfl, by decide⟩
 
+/-! ## `ValueRange.Includes` answers False only for what the range does not admit -/
+
+/-- FALSE as stated: `Includes` compares with `>=` / `<=` built from cty's
+text-based number equality, so a non-integer sitting exactly on an inclusive
+bound stored at another precision is reported as outside the range. -/
+def IncludesFalseSound : Prop := CtyModel.IncludesFalseSound
+
+/-- Where cty's number equality agrees with exact comparison between the value
+and the bounds (`BoundCoherent`; always so for integers, `isInt_coh`), a False
+from `Includes` means the range — nullness, type constraint, numeric bounds with
+their inclusiveness, byte prefix, length bounds against the possible lengths —
+does not admit the value. -/
+theorem includes_false_sound_partial (rng : VRange) (v : Value) (hm : v.isMarked = false) (hk : v.isKnown = true)
+    (hwr : rng.ty.wf = true) (hwv : v.ty.wf = true)
+    (hcoh : ∀ x lo hi nl, v.v = .n x → rng.raw = .num nl lo hi → BoundCoherent lo x ∧ BoundCoherent hi x)
+    (h : includes rng v = .ok (some false)) : Covers (unkOf rng) v = false :=
+  CtyModel.includes_false_sound_partial rng v hm hk hwr hwv hcoh h
+
+/-- The witness shape: a number equal in value to an inclusive bound that
+`rawNumberEqual` does not recognise as equal (e.g. 1e-100 at 53 and at 512 bits;
+the harness exhibits it on the real code). -/
+theorem includes_false_sound_counterexample (x b : Num) (hc : Num.cmp x b = 0) (hr : Num.rawEqual x b = false) :
+    includes ⟨.number, .num .u (some ⟨b, true⟩) none⟩ ⟨.number, .n x⟩ = .ok (some false) ∧
+    Covers (unkOf ⟨.number, .num .u (some ⟨b, true⟩) none⟩) ⟨.number, .n x⟩ = true :=
+  includes_false_at_bound x b hc hr
+
+/-- The full statement would force `rawNumberEqual` to agree with `big.Float.Cmp`. -/
+theorem includesFalseSound_needs_coherence (h : IncludesFalseSound) (x b : Num) (hc : Num.cmp x b = 0) :
+    Num.rawEqual x b = true := CtyModel.includesFalseSound_needs_coherence h x b hc
+
+/-! ## Soundness: Add, Subtract -/
+
+/-- FALSE as stated (DESIGN §8 #17): the corners of the result range are computed
+with `big.Float.Add` on the BOUNDS, which rounds to the larger precision of the two
+bounds; the value an unknown stands for may carry more precision. -/
+def SoundAdd : Prop := Sound₂ Value.add
+def SoundSub : Prop := Sound₂ Value.sub
+def SoundMul : Prop := Sound₂ Value.mul
+
+/-- unknown ≤ 18446744073709551615 (a 64-bit bound) standing for the 512-bit number
+18446744073709551615, plus 0.25: the weakened result is bounded above by
+18446744073709551615, the concrete result is 18446744073709551615.25. -/
+theorem add_mixed_precision_counterexample :
+    Value.add ⟨.number, .n (.fin false 18446744073709551615 0 512)⟩ ⟨.number, .n (.fin false 1 (-2) 53)⟩
+      = .ok ⟨.number, .n (.fin false 73786976294838206461 (-2) 512)⟩ ∧
+    Value.add ⟨.number, .unk (.num .u none (some ⟨.fin false 18446744073709551615 0 64, true⟩))⟩ ⟨.number, .n (.fin false 1 (-2) 53)⟩
+      = .ok ⟨.number, .unk (.num .f none (some ⟨.fin false 18446744073709551615 0 64, true⟩))⟩ ∧
+    CoversX ⟨.number, .unk (.num .u none (some ⟨.fin false 18446744073709551615 0 64, true⟩))⟩
+      ⟨.number, .n (.fin false 18446744073709551615 0 512)⟩ = true ∧
+    Covers ⟨.number, .unk (.num .f none (some ⟨.fin false 18446744073709551615 0 64, true⟩))⟩
+      ⟨.number, .n (.fin false 73786976294838206461 (-2) 512)⟩ = false ∧
+    CornerExactAdd ⟨.number, .unk (.num .u none (some ⟨.fin false 18446744073709551615 0 64, true⟩))⟩ ⟨.number, .n (.fin false 1 (-2) 53)⟩
+      ⟨.number, .n (.fin false 18446744073709551615 0 512)⟩ ⟨.number, .n (.fin false 1 (-2) 53)⟩ = false :=
+  ⟨by rfl, by rfl, by decide, by decide, by decide⟩
+
+theorem soundAdd_false : ¬ SoundAdd := by
+  intro h
+  obtain ⟨c1, c2, c3, c4, _⟩ := add_mixed_precision_counterexample
+  obtain ⟨r', h1, h2⟩ := h _ ⟨.number, .n (.fin false 1 (-2) 53)⟩ _ ⟨.number, .n (.fin false 1 (-2) 53)⟩ _
+    (by decide) (by decide) (by decide) (by decide) (by decide) (by decide) c3 (by decide) c1
+  rw [c2] at h1
+  cases h1
+  rw [c4] at h2
+  cases h2
+
+/-- Add is sound whenever no corner rounds: `CornerExactAdd` (decidable) says that
+`l₁+l₂`, `h₁+h₂` and `x+y` are exact (the exact sum fits the larger operand
+precision) and that a result range cty collapses to a known number is one value. -/
+theorem sound_add_partial (o₁ o₂ w₁ w₂ r : Value) (hk₁ : o₁.whollyKnown = true) (hk₂ : o₂.whollyKnown = true)
+    (hf₁ : o₁.wfc = true) (hf₂ : o₂.wfc = true) (hg₁ : w₁.wfc = true) (hg₂ : w₂.wfc = true)
+    (hc₁ : CoversX w₁ o₁ = true) (hc₂ : CoversX w₂ o₂ = true)
+    (hside : CornerExactAdd w₁.unmark w₂.unmark o₁.unmark o₂.unmark = true)
+    (ho : Value.add o₁ o₂ = .ok r) : ∃ r', Value.add w₁ w₂ = .ok r' ∧ Covers r' r = true := by
+  unfold Value.add at ho ⊢
+  rw [binMarks_eq] at ho ⊢
+  obtain ⟨r0, h0, rfl⟩ := res_map_ok ho
+  obtain ⟨r', h1, h2⟩ := addU_sound_partial o₁.unmark o₂.unmark w₁.unmark w₂.unmark r0
+    (by rw [whollyKnown_unmark]; exact hk₁) (by rw [whollyKnown_unmark]; exact hk₂)
+    (flat_unmark (wfc_flat hf₁)) (flat_unmark (wfc_flat hf₂)) (flat_unmark (wfc_flat hg₁)) (flat_unmark (wfc_flat hg₂))
+    (by rw [coversX_unmark_left, coversX_unmark_right]; exact hc₁)
+    (by rw [coversX_unmark_left, coversX_unmark_right]; exact hc₂) hside h0
+  refine ⟨_, by rw [h1]; rfl, ?_⟩
+  by_cases ha : (o₁.isMarked || o₂.isMarked) = true <;> by_cases hb : (w₁.isMarked || w₂.isMarked) = true <;>
+    simp_all [covers_withMarks_left, covers_withMarks_right]
+
+/-- Subtract likewise (lower corner `l₁ − h₂`, upper corner `h₁ − l₂`). -/
+theorem sound_sub_partial (o₁ o₂ w₁ w₂ r : Value) (hk₁ : o₁.whollyKnown = true) (hk₂ : o₂.whollyKnown = true)
+    (hf₁ : o₁.wfc = true) (hf₂ : o₂.wfc = true) (hg₁ : w₁.wfc = true) (hg₂ : w₂.wfc = true)
+    (hc₁ : CoversX w₁ o₁ = true) (hc₂ : CoversX w₂ o₂ = true)
+    (hside : CornerExactSub w₁.unmark w₂.unmark o₁.unmark o₂.unmark = true)
+    (ho : Value.sub o₁ o₂ = .ok r) : ∃ r', Value.sub w₁ w₂ = .ok r' ∧ Covers r' r = true := by
+  unfold Value.sub at ho ⊢
+  rw [binMarks_eq] at ho ⊢
+  obtain ⟨r0, h0, rfl⟩ := res_map_ok ho
+  obtain ⟨r', h1, h2⟩ := subU_sound_partial o₁.unmark o₂.unmark w₁.unmark w₂.unmark r0
+    (by rw [whollyKnown_unmark]; exact hk₁) (by rw [whollyKnown_unmark]; exact hk₂)
+    (flat_unmark (wfc_flat hf₁)) (flat_unmark (wfc_flat hf₂)) (flat_unmark (wfc_flat hg₁)) (flat_unmark (wfc_flat hg₂))
+    (by rw [coversX_unmark_left, coversX_unmark_right]; exact hc₁)
+    (by rw [coversX_unmark_left, coversX_unmark_right]; exact hc₂) hside h0
+  refine ⟨_, by rw [h1]; rfl, ?_⟩
+  by_cases ha : (o₁.isMarked || o₂.isMarked) = true <;> by_cases hb : (w₁.isMarked || w₂.isMarked) = true <;>
+    simp_all [covers_withMarks_left, covers_withMarks_right]
+
 /-! ## Non-vacuity -/
 example : Weaken ⟨.number, .n (Num.ofInt 5)⟩ ⟨.number, .unk (.num .f (some ⟨Num.ofInt 5, true⟩) none)⟩ :=
   .inside (.toUnk (by
@@ -323,6 +428,9 @@ example : CoversX ⟨.list .number, .seq [.unk (.num .f (some ⟨Num.ofInt 1, fa
     ⟨.list .number, .seq [.n (Num.ofInt 2), .n (Num.ofInt 2)]⟩ = true := by decide
 example : EqOperand ⟨.tuple [.number, .list .bool], .seq [.n (Num.ofInt 3), .seq [.b true]]⟩ := ⟨by decide, by decide⟩
 example : (⟨.list .number, .seq [.n (Num.ofInt 2)]⟩ : Value).wfc = true := by decide
+/-- the side condition of `sound_add_partial` holds for ordinary bounds: unknown in [1, 5] plus 2 -/
+example : CornerExactAdd ⟨.number, .unk (.num .f (some ⟨Num.ofInt 1, true⟩) (some ⟨Num.ofInt 5, false⟩))⟩ (intVal 2)
+    (intVal 3) (intVal 2) = true := by decide
 
 end C01
 end CtyModel
